@@ -51,7 +51,7 @@ Definition check_canon (c : case) : bool :=
 Definition check_case (c : case) : bool := check_doc_ok c && check_denote c && check_save c && check_canon c.
 (* premises of the theorems in Props/C04.v: the CAS after the traversal is well-formed for the structures found *)
 Definition premises (c : case) : bool :=
-  match find_all_fs false (k_schema c) (k_cas c) with
-  | Ok w => wf_xmib (k_schema c) (cas_after (k_cas c) w) (w_all w)
+  match written (k_schema c) (k_cas c) with
+  | Ok ca => wf_xmib (k_schema c) (fst ca) (snd ca)
   | _ => false
   end.
